@@ -13,5 +13,5 @@ for d in sorted(glob.glob('/verif/seeded/%s-m*' % pid)):
 base = base.replace('up to THREE different', 'TWO different').replace('k = 1..3', 'k = 4..5').replace('the three should break', 'the two should break')
 base = base.replace('/tmp/seedwt-%s' % pid, '/tmp/seedwt2-%s' % pid).replace('/tmp/seed-%s/' % pid, '/tmp/seed2-%s/' % pid)
 extra = ("\n\nAn earlier round already produced the following changes for this property — yours must be DIFFERENT from them (other functions and other clauses of the property where possible; look for code paths, entry points and option combinations the ones below do not touch):\n" + "\n".join(titles) +
-         "\n\nNote: the repository contains files guarded by the Go build tag `verif` and calls to no-op functions named verif* — ignore them: do not modify or remove them and do not rely on the tag. The machine is loaded by other jobs; timing-sensitive existing tests (commonspace Test_Sync, net/transport/yamux TestDialContextCancellation (always fails here), net/rpc/limiter, spacestorage/migration TestMigratePoolTryAddWhenFull, occasionally ocache/pubsub/streampool) flake on the clean tree too — re-run a failing package alone before attributing a failure to your change.\n")
+         "\n\nNote: the repository contains files guarded by the Go build tag `verif` and calls to no-op functions named verif* — ignore them: do not modify or remove them and do not rely on the tag. Never use `git stash` (the stash is shared by all worktrees of /repo and other agents work in parallel) - toggle your change with `git apply` / `git apply -R`. The machine is loaded by other jobs; timing-sensitive existing tests (commonspace Test_Sync, net/transport/yamux TestDialContextCancellation (always fails here), net/rpc/limiter, spacestorage/migration TestMigratePoolTryAddWhenFull, occasionally ocache/pubsub/streampool) flake on the clean tree too — re-run a failing package alone before attributing a failure to your change.\n")
 print(base + extra)
